@@ -419,8 +419,8 @@ def r5_selection(ctx):
     mt = ctx.prog.func(f'{N.MAPPER}.match')
     rets = symex.returns(mt)
     c2 = mt.params[1]
-    okd = len(rets) == 1 and src(rets[0][1]) in (
-        f'cls._match({c2}, include=cls._validate_include(include), exclude=cls._validate_exclude(exclude))',)
+    okd = len(rets) == 1 and F.same(ctx, mt, rets[0][1],
+                                    f'cls._match({c2}, include=cls._validate_include(include), exclude=cls._validate_exclude(exclude))')
     ctx.check(okd, 'R5', mt.loc, mt.qualname, 'match-delegation',
               'match normalises include/exclude and delegates to _match with the same category')
     # is_child reflexive and delegating with unswapped arguments
